@@ -264,8 +264,9 @@ def search(res, tier, seed, deep=False):
     # large samples (thousands of values, tie-free): end points, exactness at the sample points, rank transfer
     for N in ([2500] if tier == "quick" else [2500, 5000, 12000]):
         rs = np.random.RandomState(r.randint(0, 10 ** 6))
-        fx = np.unique(np.round(rs.normal(0, 100, N * 2) * 64) / 64)[:N]; rs.shuffle(fx)
-        fz = np.unique(np.round(rs.gamma(2.0, 30, N * 2) * 64) / 64)[:N]; rs.shuffle(fz)
+        fx = np.unique(np.round(rs.normal(0, 100, N * 2) * 1024) / 1024); rs.shuffle(fx)
+        fz = np.unique(np.round(rs.gamma(2.0, 30, N * 2) * 1024) / 1024); rs.shuffle(fz)
+        N = min(N, len(fx), len(fz)); fx, fz = fx[:N], fz[:N]   # (rounding may leave fewer than N distinct values)
         res.case(("laws-large", N))
         bad = []
         e = m.ecdf(fx, fx, method="linear_interpolation"); want = np.argsort(np.argsort(fx)) / (N - 1)
